@@ -6,7 +6,11 @@
 package rtw
 
 import (
+	"reflect"
 	"testing"
+	"unsafe"
+
+	storetypes "github.com/cosmos/cosmos-sdk/store/types"
 
 	"github.com/unification-com/mainchain/app"
 )
@@ -42,3 +46,30 @@ func KeeperAuthority(module string) string {
 // StaticTrace: calls (static callee names, "invoke:<method>") and constant map lookups
 // ("lookup:<key>") of the named function, in source order. Not available natively.
 func StaticTrace(fn string) []string { return nil }
+
+// KeeperStoreKey: the name of the store key module's keeper is constructed over. Engine: the
+// constant map key of the `keys[...]` lookup that feeds the constructor call in app.NewApp;
+// natively: the (unexported) storeKey field of the real application's keeper.
+func KeeperStoreKey(module string) string {
+	a := realApp()
+	var k interface{}
+	switch module {
+	case "enterprise":
+		k = &a.EnterpriseKeeper
+	case "wrkchain":
+		k = &a.WrkchainKeeper
+	case "beacon":
+		k = &a.BeaconKeeper
+	case "stream":
+		k = &a.StreamKeeper
+	default:
+		return ""
+	}
+	f := reflect.ValueOf(k).Elem().FieldByName("storeKey")
+	f = reflect.NewAt(f.Type(), unsafe.Pointer(f.UnsafeAddr())).Elem()
+	sk, ok := f.Interface().(storetypes.StoreKey)
+	if !ok || sk == nil {
+		return ""
+	}
+	return sk.Name()
+}
